@@ -342,6 +342,9 @@ def g_scale(kinds, main='A'):
     return run
 
 
+BUDGET_S = {'quick': 600, 'thorough': 1200}
+
+
 def groups(tier):
     q = tier == 'quick'
     phases1 = ['l', 'g', 's', 'L', 'S']
